@@ -21,9 +21,12 @@ statement by statement), `Paging` (memory.rs: reset maps, slot arithmetic, what 
 `FrameClock` (controller.rs: `wait_internal`, `new_frame`, `int_active`, the frame counter),
 `VtxLayout` (vtx/src/lib.rs, player.rs: header reads, un-transposition index, samples per frame, R13
 rule, write order, cursor arithmetic of `play`), `FastLoad` (fastload/tap.rs: `fast_load_tap`,
-prologue, loop iteration and write-back, statement by statement) and `TapeMachine` (tape/tap.rs: `enum TapeState`,
+prologue, loop iteration and write-back, statement by statement), `TapeMachine` (tape/tap.rs: `enum TapeState`,
 `play` / `stop` / `rewind`, the guard and countdown of `process_clocks` and every arm of its state machine as state
-transformers). When the construct is found but a branch / a store / a byte read / an
+transformers), `InputHandlers` (controller.rs: `send_key`, `send_sinclair_key`, `send_compound_key`,
+`send_mouse_*`, the half-row scan of `read_io`; joy/kempston.rs, mouse/kempston.rs, the `send_*` entry points of
+emulator/mod.rs) and `AyDispatch` (aym precise.rs: `write_register` and the setters; sound/ay.rs:
+`ZXAyChip::select_reg/write/read`). When the construct is found but a branch / a store / a byte read / an
 expression cannot be translated faithfully the extractor must not drop it silently. It prints
 `FAIL <table>: <file>:<line>: <why>`, writes a generated file that does not build (carrying the same
 message) and exits with status 1. A function that is not found at all (renamed, moved) is still a `SKIP`.
@@ -5191,13 +5194,1216 @@ def _tm_row(v, binds, blk):
                "true" if falls else "false"))
 
 
+
+# >>> input handlers / AY dispatch
+# ---------------------------------------------------------------------------------------------------
+# InputHandlers / AyDispatch: the event handlers of the input devices and the register dispatch of the
+# sound chip, translated statement by statement (C17, C18). A second, self-contained statement translator
+# for `&mut self` methods (it shares the tokenizer and the precedence parser with the one above):
+#   * fields of `self` are threaded through a Lean structure `s`; `self.f = e` / `self.f op= e` is a record
+#     update, `self.arr[i] op= e` a point update of an array held as a function (`set8`),
+#     `self.channels[i].f = e` a point update of an array of structures;
+#   * `let m = match E { P => &mut self.f, _ => &mut local };` binds an *alias*: every `*m op= e` updates the
+#     field when the test holds and the local otherwise, every `*m` reads the one or the other;
+#   * `if let Some(d) = &mut self.dev { d.method(..); }` runs the translated method of the sub-device and
+#     writes it back; `self.method(..)` / `self.dev.method(..)` call translated methods (a method that can
+#     reach `unreachable!()` returns `Option`, `none` = the panic);
+#   * `for n in a..b { .. }` is a `List.foldl` over `List.range'` carrying the one local the body assigns;
+#   * `match x { 0 | 1 => .., _ => .. }` on an integer is an if / else-if chain in source order;
+#   * `as` between u8 / i8 / u16 / i16 / usize keeps or extends the bit pattern (sign extension from i8),
+#     `E as u8` of a field-less enum is its discriminant table; `!` on an integer is `~~~`.
+# Arithmetic that would panic in Rust (overflow of a checked `+`) is outside the translation, as above.
+# Not located -> Skip; located but not translatable -> Fail.
+# ---------------------------------------------------------------------------------------------------
+
+KEMPSTON_JOY_RS = "rustzx-core/src/zx/joy/kempston.rs"
+KEMPSTON_MOUSE_RS = "rustzx-core/src/zx/mouse/kempston.rs"
+SINCLAIR_RS = "rustzx-core/src/zx/joy/sinclair.rs"
+KEYS_RS = "rustzx-core/src/zx/keys.rs"
+EMULATOR_RS = "rustzx-core/src/emulator/mod.rs"
+ZXAY_RS = "rustzx-core/src/zx/sound/ay.rs"
+AYM_PRECISE_RS = "aym/src/backends/precise.rs"
+AYM_LIB_RS = "aym/src/lib.rs"
+
+_XTY = {"nat": "Nat", "lit": "Nat", "bool": "Bool", "bv8": "BitVec 8", "i8": "BitVec 8", "bv16": "BitVec 16",
+        "i16": "BitVec 16", "bv32": "BitVec 32", "arr8": "Nat → BitVec 8"}
+_XRUST = {"usize": "nat", "u8": "bv8", "i8": "i8", "u16": "bv16", "i16": "i16", "u32": "bv32", "bool": "bool"}
+_XWIDTH = {"bv8": 8, "i8": 8, "bv16": 16, "i16": 16, "bv32": 32}
+
+
+class _PX(_P):
+    """the expression parser with prefix `*` / `&` / `&mut`, postfix `[i]` and `.field`, array literals, macros"""
+
+    def unary(self):
+        k, x = self.peek()
+        if k == "op" and x == "*":
+            self.eat()
+            return ("deref", self.unary())
+        if k == "op" and x == "&":
+            self.eat()
+            if self.peek() == ("id", "mut"):
+                self.eat()
+            return ("ref", self.unary())
+        if k == "op" and x == "[":
+            self.eat()
+            items = []
+            while not self.at("]"):
+                items.append(self.expr())
+                if self.at(","):
+                    self.eat()
+            self.eat("]")
+            return ("array", items)
+        if k == "id" and self.peek(1) == ("op", "!") and self.peek(2) == ("op", "("):
+            self.eat(); self.eat(); self.eat("(")
+            depth = 1
+            while depth:
+                y = self.eat()
+                depth += (y == "(") - (y == ")")
+            return ("macro", x)
+        e = _P.unary(self)
+        while True:
+            if self.at("["):
+                self.eat()
+                i = self.expr()
+                self.eat("]")
+                e = ("index", e, i)
+            elif self.at(".") and self.peek(1)[0] == "id":
+                self.eat()
+                name = self.eat()
+                if self.at("("):
+                    raise Fail("%s: method call `.%s(..)` on an indexed value" % (self.where, name))
+                for part in name.split("."):
+                    e = ("field", e, part)
+            else:
+                return e
+
+
+class _XCtx:
+    """what the translation knows: structures, enum discriminant tables, methods, the type of `self`"""
+
+    def __init__(self):
+        self.leanty = dict(_XTY)     # type -> Lean type text
+        self.structs = {}            # struct type -> {field: type}
+        self.enum_cast = {}          # (enum type, "bv8" | "i8") -> Lean function
+        self.methods = {}            # (receiver type, method) -> (Lean format, [argument types], result type)
+        self.mutators = {}           # (receiver type, method) -> (Lean function, [argument types], may panic)
+        self.self_ty = None
+        self.option = False          # the function being translated returns Option (it may panic)
+        self.alias = {}              # alias name -> (test, field, local, type)
+
+    def ty(self, t):
+        if isinstance(t, tuple) and t[0] == "opt":
+            return "Option " + self.leanty[t[1]]
+        if t not in self.leanty:
+            raise KeyError(t)
+        return self.leanty[t]
+
+
+def _x_cast(a, ta, to_rust, X, where):
+    to = _XRUST.get(to_rust)
+    if to is None or to == "bool":
+        raise Fail("%s: cast `as %s`" % (where, to_rust))
+    if (ta, to) in X.enum_cast:
+        return "(%s %s)" % (X.enum_cast[(ta, to)], a), to
+    if ta == "bool":
+        if to == "nat":
+            return "(if %s then 1 else 0)" % a, "nat"
+        if to in _XWIDTH:
+            return "(if %s then (1 : BitVec %d) else 0)" % (a, _XWIDTH[to]), to
+    if ta == "lit":
+        return ("(%s : %s)" % (a, _XTY[to]), to) if to != "nat" else (a, "nat")
+    if ta == "nat":
+        return (a, "nat") if to == "nat" else ("(BitVec.ofNat %d %s)" % (_XWIDTH[to], a), to)
+    if ta in _XWIDTH:
+        if to == "nat":
+            if ta in ("i8", "i16"):
+                raise Fail("%s: cast of a signed value to usize" % where)
+            return "(%s).toNat" % a, "nat"
+        wa, wt = _XWIDTH[ta], _XWIDTH[to]
+        if wa == wt:
+            return a, to
+        if wt < wa:
+            return "((%s).setWidth %d)" % (a, wt), to
+        return ("((%s).signExtend %d)" if ta in ("i8", "i16") else "((%s).setWidth %d)") % (a, wt), to
+    raise Fail("%s: cast `as %s` of a %s value" % (where, to_rust, ta))
+
+
+def _x_lean(e, env, X, where):
+    """AST -> (fully parenthesised Lean text, type)"""
+    k = e[0]
+    if k == "num":
+        return str(e[1]), "lit"
+    if k == "var":
+        if e[1] in ("true", "false"):
+            return e[1], "bool"
+        if e[1] in env:
+            if isinstance(env[e[1]][1], tuple) and env[e[1]][1][0] == "pending":
+                raise Fail("%s: the untyped integer local `%s` is used before its type is known" % (where, e[1]))
+            return env[e[1]]
+        head, _, rest = e[1].partition(".")
+        if rest and head in env:   # a path into a structure
+            v, t = env[head]
+            for f in rest.split("."):
+                if t not in X.structs or f not in X.structs[t]:
+                    raise Fail("%s: `%s`: no translated field `%s` in a %s value" % (where, e[1], f, t))
+                v, t = "%s.%s" % (v, f), X.structs[t][f]
+            return v, t
+        raise Fail("%s: unknown identifier `%s`" % (where, e[1]))
+    if k == "deref":
+        if e[1][0] == "var" and ("*" + e[1][1]) in env:
+            return env["*" + e[1][1]]
+        raise Fail("%s: `*` on something that is not a translated alias" % where)
+    if k == "index":
+        if e[1][0] == "index" and e[1][1] == ("var", "ENVELOPE_RESET_TO_MAX") and "ENVELOPE_RESET_TO_MAX[][]" in env:
+            i1, t1 = _x_lean(e[1][2], env, X, where)
+            i2, t2 = _x_lean(e[2], env, X, where)
+            if t1 not in ("nat", "lit") or t2 not in ("nat", "lit"):
+                raise Fail("%s: ENVELOPE_RESET_TO_MAX indexed by %s, %s" % (where, t1, t2))
+            return "(%s %s %s)" % (env["ENVELOPE_RESET_TO_MAX[][]"][0], i1, i2), "bool"
+        a, ta = _x_lean(e[1], env, X, where)
+        i, ti = _x_lean(e[2], env, X, where)
+        if ti not in ("nat", "lit"):
+            raise Fail("%s: an index of type %s" % (where, ti))
+        if ta == "arr8":
+            return "(%s %s)" % (a, i), "bv8"
+        if isinstance(ta, tuple) and ta[0] == "arr":
+            return "(%s %s)" % (a, i), ta[1]
+        raise Fail("%s: indexing a %s value" % (where, ta))
+    if k == "field":
+        a, ta = _x_lean(e[1], env, X, where)
+        if ta not in X.structs or e[2] not in X.structs[ta]:
+            raise Fail("%s: no translated field `%s` in a %s value" % (where, e[2], ta))
+        return "%s.%s" % (a, e[2]), X.structs[ta][e[2]]
+    if k == "call":
+        if e[1] == "u16::from_le_bytes" and len(e[2]) == 1 and e[2][0][0] == "array" and len(e[2][0][1]) == 2:
+            lo, tl = _x_lean(e[2][0][1][0], env, X, where)
+            hi, th = _x_lean(e[2][0][1][1], env, X, where)
+            if tl != "bv8" or th != "bv8":
+                raise Fail("%s: from_le_bytes of %s, %s" % (where, tl, th))
+            return "(BitVec.ofNat 16 ((%s).toNat + 256 * (%s).toNat))" % (lo, hi), "bv16"
+        key = "%s(%d)" % (e[1], len(e[2]))
+        recv, _, meth = e[1].rpartition(".")
+        if key in env:
+            fmt, targs, tret = env[key]
+            pre = []
+        elif recv:
+            r, tr = _x_lean(("var", recv), env, X, where)
+            if (tr, meth) not in X.methods:
+                raise Fail("%s: unknown method `%s` of a %s value" % (where, meth, tr))
+            fmt, targs, tret = X.methods[(tr, meth)]
+            pre = [r]
+        else:
+            raise Fail("%s: unknown call `%s(..)`" % (where, e[1]))
+        if len(targs) != len(e[2]):
+            raise Fail("%s: `%s` called with %d argument(s)" % (where, e[1], len(e[2])))
+        args = []
+        for x, want in zip(e[2], targs):
+            a, ta = _x_lean(x, env, X, where)
+            if ta == "lit" and want in _XTY:
+                a, ta = "(%s : %s)" % (a, _XTY[want]), want
+            if ta != want:
+                raise Fail("%s: argument of `%s` has type %s (expected %s)" % (where, e[1], ta, want))
+            args.append(a)
+        return fmt % tuple(pre + args), tret
+    if k == "un":
+        a, ta = _x_lean(e[2], env, X, where)
+        if e[1] == "!" and ta == "bool":
+            return "(!%s)" % a, "bool"
+        if e[1] == "!" and ta in ("bv8", "bv16", "bv32"):
+            return "(~~~%s)" % a, ta
+        raise Fail("%s: unary `%s` on a %s value" % (where, e[1], ta))
+    if k == "cast":
+        a, ta = _x_lean(e[1], env, X, where)
+        return _x_cast(a, ta, e[2], X, where)
+    if k == "bin":
+        op = e[1]
+        a, ta = _x_lean(e[2], env, X, where)
+        b, tb = _x_lean(e[3], env, X, where)
+        if op in ("&&", "||"):
+            if ta != "bool" or tb != "bool":
+                raise Fail("%s: `%s` on non-Boolean operands" % (where, op))
+            return "(%s %s %s)" % (a, op, b), "bool"
+        if op in ("<<", ">>"):
+            if ta not in ("bv8", "bv16", "bv32", "nat", "lit") or tb not in ("bv8", "bv16", "bv32", "nat", "lit"):
+                raise Fail("%s: shift of a %s by a %s" % (where, ta, tb))
+            if tb in _XWIDTH:
+                b = "(%s).toNat" % b
+            return "(%s %s %s)" % (a, _LEANOP[op], b), ta
+        t = tb if ta == "lit" else ta
+        if tb not in ("lit", t):
+            raise Fail("%s: operands of `%s` have types %s and %s" % (where, op, ta, tb))
+        if t not in _XTY and op not in ("==", "!="):
+            raise Fail("%s: `%s` on %s values" % (where, op, t))
+        if op in ("==", "!=", "<", ">", "<=", ">="):
+            if op in ("==", "!="):
+                if t == "lit":
+                    a = "(%s : Nat)" % a
+                return "(%s %s %s)" % (a, op, b), "bool"
+            if t in ("bool", "i8", "i16") or t not in _XTY:
+                raise Fail("%s: ordering of %s values" % (where, t))
+            if t == "lit":
+                a = "(%s : Nat)" % a
+            return "(decide (%s %s %s))" % (a, {"<": "<", ">": ">", "<=": "≤", ">=": "≥"}[op], b), "bool"
+        if t == "bool":
+            if op in ("^", "&", "|"):
+                return "(%s %s %s)" % (a, {"^": "^^", "&": "&&", "|": "||"}[op], b), "bool"
+            raise Fail("%s: `%s` on Booleans" % (where, op))
+        if op in ("/", "%") and t in ("i8", "i16"):
+            raise Fail("%s: signed division" % where)
+        return "(%s %s %s)" % (a, _LEANOP[op], b), t
+    raise Fail("%s: cannot translate a %s here" % (where, k))
+
+
+# ---- statements ----
+
+def _x_stmt(p):
+    k, x = p.peek()
+    if x == "__attr__":
+        raise Fail("%s: an attribute inside a translated body" % p.where)
+    if x == "let":
+        p.eat()
+        if p.at("["):   # let [l, h] = port.to_le_bytes();
+            p.eat()
+            names = []
+            while not p.at("]"):
+                names.append(p.eat())
+                if p.at(","):
+                    p.eat()
+            p.eat("]"); p.eat("=")
+            src = p.eat()
+            if not src.endswith(".to_le_bytes") or len(names) != 2:
+                raise Fail("%s: array pattern on something other than a u16 `.to_le_bytes()`" % p.where)
+            p.eat("("); p.eat(")"); p.eat(";")
+            return ("lebytes", names, src[:-len(".to_le_bytes")])
+        if p.at("mut"):
+            p.eat()
+        if p.peek()[0] != "id":
+            raise Fail("%s: `let` with a pattern (`%s`)" % (p.where, p.peek()[1]))
+        name = p.eat()
+        ty = None
+        if p.at(":"):
+            p.eat()
+            ty = p.eat()
+        p.eat("=")
+        if p.at("match"):
+            p.eat()
+            scrut = p.expr()
+            p.eat("{")
+            arms = []
+            while not p.at("}"):
+                pat = p.expr()
+                p.eat("=>")
+                arms.append((pat, p.expr()))
+                if p.at(","):
+                    p.eat()
+            p.eat("}"); p.eat(";")
+            return ("letmatch", name, scrut, arms)
+        e = p.expr()
+        p.eat(";")
+        return ("let", name, e, ty)
+    if x == "if":
+        s = _x_if(p)
+        if p.at(";"):
+            p.eat()
+        return s
+    if x == "return":
+        p.eat()
+        if not p.at(";"):
+            raise Fail("%s: `return <value>`" % p.where)
+        p.eat(";")
+        return ("return",)
+    if x == "for":
+        p.eat()
+        var = p.eat()
+        if p.eat() != "in":
+            raise Fail("%s: `for` without `in`" % p.where)
+        lo = p.expr(len(_BINPREC))
+        p.eat("..")
+        hi = p.expr(len(_BINPREC))
+        p.eat("{")
+        body = _x_block(p)
+        p.eat("}")
+        return ("for", var, lo, hi, body)
+    if x == "match":
+        p.eat()
+        scrut = p.expr()
+        p.eat("{")
+        arms = []
+        while not p.at("}"):
+            pats = []
+            while True:
+                kk, y = p.peek()
+                if kk == "num":
+                    p.eat()
+                    pats.append(_intlit(y))
+                elif y == "_":
+                    p.eat()
+                    pats.append("_")
+                else:
+                    raise Fail("%s: a `match` pattern that is neither an integer nor `_` (`%s`)" % (p.where, y))
+                if p.at("|"):
+                    p.eat()
+                    continue
+                break
+            p.eat("=>")
+            if p.at("{"):
+                p.eat()
+                body = _x_block(p)
+                p.eat("}")
+            else:
+                body = [("expr", p.expr())]
+            if p.at(","):
+                p.eat()
+            arms.append((pats, body))
+        p.eat("}")
+        if p.at(";"):
+            p.eat()
+        return ("match", scrut, arms)
+    if x in ("while", "loop", "unsafe"):
+        raise Fail("%s: `%s` inside a body that is translated statement by statement" % (p.where, x))
+    e = p.expr()
+    if p.peek()[0] == "op" and p.peek()[1] in ("=", "+=", "-=", "*=", "|=", "&=", "^=", "<<=", ">>="):
+        op = p.eat()
+        rhs = p.expr()
+        if p.at(";"):
+            p.eat()
+        elif not (p.peek()[0] is None or p.at("}")):
+            raise Fail("%s: an assignment that is not followed by `;`" % p.where)
+        return ("set", e, op[:-1], rhs)
+    if p.at(";"):
+        p.eat()
+        return ("expr", e)
+    if p.peek()[0] is None or p.at("}"):
+        return ("tail", e)
+    raise Fail("%s: cannot parse the statement starting with `%s`" % (p.where, x))
+
+
+def _x_block(p):
+    out = []
+    while p.peek()[0] is not None and not p.at("}"):
+        out.append(_x_stmt(p))
+    return out
+
+
+def _x_if(p):
+    p.eat("if")
+    if p.at("let"):
+        p.eat()
+        pat = p.expr()
+        p.eat("=")
+        head = ("iflet", pat, p.expr())
+    else:
+        head = ("if", p.expr())
+    p.eat("{")
+    th = _x_block(p)
+    p.eat("}")
+    el = []
+    if p.at("else"):
+        p.eat()
+        if p.at("if"):
+            el = [_x_if(p)]
+        else:
+            p.eat("{")
+            el = _x_block(p)
+            p.eat("}")
+    return head + (th, el)
+
+
+def _x_assigned(stmts):
+    """local names assigned (not declared) somewhere in the statements"""
+    out = set()
+    for s in stmts:
+        if s[0] == "set" and s[1][0] == "var" and "." not in s[1][1]:
+            out.add(s[1][1])
+        elif s[0] in ("if", "iflet"):
+            out |= _x_assigned(s[-2]) | _x_assigned(s[-1])
+        elif s[0] == "for":
+            out |= _x_assigned(s[4])
+        elif s[0] == "match":
+            for _, b in s[2]:
+                out |= _x_assigned(b)
+    return out
+
+
+def _x_declared(stmts):
+    return {s[1] for s in stmts if s[0] in ("let", "letmatch")} | {n for s in stmts if s[0] == "lebytes" for n in s[1]}
+
+
+def _x_coerce(v, tv, want, where, what):
+    if tv == want:
+        return v
+    if tv == "lit" and want in _XTY:
+        return "(%s : %s)" % (v, _XTY[want]) if want != "nat" else v
+    raise Fail("%s: a %s value stored into %s (%s)" % (where, tv, what, want))
+
+
+def _x_emit(stmts, env, X, where, ind, done):
+    """continuation style: what follows an `if` is repeated in both branches; `done(env)` closes a path"""
+    if not stmts:
+        return ind + done(env) + "\n"
+    s, rest = stmts[0], stmts[1:]
+    k = s[0]
+
+    def go(env2=env, ind2=ind, rest2=rest):
+        return _x_emit(rest2, env2, X, where, ind2, done)
+    if k == "return":
+        return ind + done(env) + "\n"
+    if k == "tail":
+        if rest:
+            raise Fail("%s: statements after the final expression" % where)
+        if s[1][0] == "call" or s[1][0] == "macro":   # a call in tail position (a match arm, the end of a body)
+            return _x_emit([("expr", s[1])], env, X, where, ind, done)
+        return ind + done(env, s[1]) + "\n"
+    if k == "lebytes":
+        v, tv = _x_lean(("var", s[2]), env, X, where)
+        if tv != "bv16":
+            raise Fail("%s: to_le_bytes of a %s value" % (where, tv))
+        env2, out = dict(env), ""
+        for n, txt in zip(s[1], ("(%s).setWidth 8" % v, "((%s) >>> 8).setWidth 8" % v)):
+            if n != "_":
+                env2[n] = (n, "bv8")
+                out += "%slet %s : BitVec 8 := %s\n" % (ind, n, txt)
+        return out + go(env2)
+    if k == "let":
+        v, tv = _x_lean(s[2], env, X, where)
+        if s[3] is not None:
+            want = _XRUST.get(s[3])
+            if want is None:
+                raise Fail("%s: `let %s: %s`" % (where, s[1], s[3]))
+            v, tv = _x_coerce(v, tv, want, where, s[1]), want
+        env2 = dict(env)
+        if tv == "lit":
+            # an untyped integer local: its type is fixed by what it is aliased with (see `letmatch`)
+            env2[s[1]] = ("%s" % s[1], ("pending", v))
+            return go(env2)
+        env2[s[1]] = (s[1], tv)
+        return "%slet %s : %s := %s\n" % (ind, s[1], X.ty(tv), v) + go(env2)
+    if k == "letmatch":
+        # let m = match E { P => &mut self.f, _ => &mut local };
+        name, scrut, arms = s[1], s[2], s[3]
+        if len(arms) != 2 or arms[1][0] != ("var", "_") or arms[0][1][0] != "ref" or arms[1][1][0] != "ref":
+            raise Fail("%s: `let %s = match ..` that is not a choice between two `&mut` places" % (where, name))
+        sv, st = _x_lean(scrut, env, X, where)
+        pv, pt = _x_lean(arms[0][0], env, X, where)
+        if st != pt:
+            raise Fail("%s: pattern of type %s against a %s value" % (where, pt, st))
+        places = []
+        for _, r in arms:
+            pl = r[1]
+            if pl[0] != "var":
+                raise Fail("%s: an alias of something that is not a field or a local" % where)
+            places.append(pl[1])
+        fld, loc = places
+        if not fld.startswith("self.") or loc not in env:
+            raise Fail("%s: alias `%s` is not `&mut self.<field>` / `&mut <local>`" % (where, name))
+        fv, ft = _x_lean(("var", fld), env, X, where)
+        lv, lt = env[loc]
+        out = ""
+        env2 = dict(env)
+        if isinstance(lt, tuple) and lt[0] == "pending":
+            out += "%slet %s : %s := %s\n" % (ind, loc, X.ty(ft), lt[1])
+            lt = ft
+            env2[loc] = (loc, ft)
+        if lt != ft:
+            raise Fail("%s: alias of a %s field and a %s local" % (where, ft, lt))
+        test = "%s_is_field" % name
+        out += "%slet %s : Bool := (%s == %s)\n" % (ind, test, sv, pv)
+        env2["*" + name] = ("(if %s then %s else %s)" % (test, fv, loc), ft)
+        X.alias[name] = (test, fld[5:], loc, ft)
+        return out + go(env2)
+    if k == "set":
+        lhs, op, rhs = s[1], s[2], s[3]
+        rv, rt = _x_lean(rhs, env, X, where)
+
+        def value(cur, ct):
+            if not op:
+                return _x_coerce(rv, rt, ct, where, "the left-hand side")
+            v, tv = _x_lean(("bin", op, ("var", "__cur__"), rhs), dict(env, __cur__=(cur, ct)), X, where)
+            return _x_coerce(v, tv, ct, where, "the left-hand side")
+        if lhs[0] == "deref" and lhs[1][0] == "var" and lhs[1][1] in X.alias:
+            test, fld, loc, ft = X.alias[lhs[1][1]]
+            nf = value("s.%s" % fld, ft)
+            nl = value(loc, ft)
+            return ("%slet s := if %s then { s with %s := %s } else s\n%slet %s : %s := if %s then %s else %s\n"
+                    % (ind, test, fld, nf, ind, loc, X.ty(ft), test, loc, nl)) + go()
+        if lhs[0] == "var" and lhs[1].startswith("self.") and lhs[1].count(".") == 1:
+            f = lhs[1][5:]
+            ft = X.structs[X.self_ty].get(f)
+            if ft is None:
+                raise Fail("%s: assignment to `%s`, which is not a translated field" % (where, lhs[1]))
+            return "%slet s := { s with %s := %s }\n" % (ind, f, value("s.%s" % f, ft)) + go()
+        if lhs[0] == "var" and lhs[1] in env and "." not in lhs[1]:
+            lv, lt = env[lhs[1]]
+            if isinstance(lt, tuple):
+                raise Fail("%s: assignment to the untyped local `%s`" % (where, lhs[1]))
+            env2 = dict(env)
+            return "%slet %s : %s := %s\n" % (ind, lhs[1], X.ty(lt), value(lv, lt)) + go(env2)
+        if lhs[0] == "index" and lhs[1][0] == "var" and lhs[1][1].startswith("self."):
+            f = lhs[1][1][5:]
+            ft = X.structs[X.self_ty].get(f)
+            if ft != "arr8":
+                raise Fail("%s: indexed assignment to `%s`" % (where, lhs[1][1]))
+            i, ti = _x_lean(lhs[2], env, X, where)
+            if ti not in ("nat", "lit"):
+                raise Fail("%s: an index of type %s" % (where, ti))
+            return "%slet s := { s with %s := set8 s.%s %s %s }\n" % (ind, f, f, i, value("(s.%s %s)" % (f, i), "bv8")) + go()
+        if lhs[0] == "field" and lhs[1][0] == "index" and lhs[1][1][0] == "var" and lhs[1][1][1].startswith("self."):
+            f = lhs[1][1][1][5:]
+            ft = X.structs[X.self_ty].get(f)
+            if not (isinstance(ft, tuple) and ft[0] == "arr"):
+                raise Fail("%s: assignment into `%s[..]`" % (where, lhs[1][1][1]))
+            et = ft[1]
+            g = lhs[2]
+            if g not in X.structs[et]:
+                raise Fail("%s: assignment to `%s[..].%s`, which is not a translated field" % (where, lhs[1][1][1], g))
+            i, ti = _x_lean(lhs[1][2], env, X, where)
+            if ti not in ("nat", "lit"):
+                raise Fail("%s: an index of type %s" % (where, ti))
+            nv = value("(s.%s %s).%s" % (f, i, g), X.structs[et][g])
+            return "%slet s := { s with %s := setAt s.%s %s { (s.%s %s) with %s := %s } }\n" % (ind, f, f, i, f, i, g, nv) + go()
+        raise Fail("%s: cannot translate the left-hand side of an assignment" % where)
+    if k == "if":
+        c, tc = _x_lean(s[1], env, X, where)
+        if tc != "bool":
+            raise Fail("%s: `if` on a non-Boolean" % where)
+        leak = (_x_declared(s[2]) | _x_declared(s[3])) & _vars_of(rest)
+        if leak:
+            raise Fail("%s: `%s` is declared inside a branch and a variable of that name is used after the `if`"
+                       % (where, sorted(leak)[0]))
+        return "%sif %s then\n%s%selse\n%s" % (ind, c, go(env, ind + "  ", s[2] + rest), ind, go(env, ind + "  ", s[3] + rest))
+    if k == "iflet":
+        # if let Some(d) = &mut self.dev { d.method(..); .. }
+        pat, src, th, el = s[1], s[2], s[3], s[4]
+        if pat[0] != "call" or pat[1] != "Some" or len(pat[2]) != 1 or pat[2][0][0] != "var" or src[0] != "ref" \
+                or src[1][0] != "var" or el:
+            raise Fail("%s: `if let` that is not `if let Some(d) = &mut <device> { .. }`" % where)
+        d = pat[2][0][1]
+        dv, dt = _x_lean(src[1], env, X, where)
+        if not (isinstance(dt, tuple) and dt[0] == "opt") or not dv.startswith("s.") or dv.count(".") != 1:
+            raise Fail("%s: `if let Some(..)` on `%s`, which is not an optional sub-device of the translated state" % (where, dv))
+        if d in _vars_of(rest):
+            raise Fail("%s: `%s` is used after the `if let`" % (where, d))
+        out = "%smatch %s with\n%s| some %s =>\n" % (ind, dv, ind, d)
+        env2 = dict(env)
+        env2[d] = (d, dt[1])
+        inner = th + [("__writeback", dv[2:], d)] + rest
+        out += _x_emit(inner, env2, X, where, ind + "  ", done)
+        out += "%s| none =>\n" % ind + go(env, ind + "  ")
+        return out
+    if k == "__writeback":
+        return "%slet s := { s with %s := some %s }\n" % (ind, s[1], s[2]) + go()
+    if k == "for":
+        lo, tl = _x_lean(s[2], env, X, where)
+        hi, th = _x_lean(s[3], env, X, where)
+        if tl != "lit" or th != "lit":
+            raise Fail("%s: a `for` range whose bounds are not integer literals" % where)
+        carried = sorted(_x_assigned(s[4]) - _x_declared(s[4]))
+        if len(carried) != 1 or carried[0] not in env:
+            raise Fail("%s: the `for` body assigns %s (exactly one outer local is supported)" % (where, carried or "nothing"))
+        c = carried[0]
+        ct = env[c][1]
+        for b in s[4]:
+            if _x_touches_self(b):
+                raise Fail("%s: the `for` body changes `self`" % where)
+        env2 = dict(env)
+        env2[s[1]] = (s[1], "nat")
+        body = _x_emit(s[4], env2, X, where, ind + "    ", lambda e_, t_=None: c)
+        rng = "(List.range %s)" % hi if int(lo) == 0 else "(List.range' %s (%s - %s))" % (lo, hi, lo)
+        return ("%slet %s : %s := %s.foldl (fun (%s : %s) (%s : Nat) =>\n%s%s  ) %s\n"
+                % (ind, c, X.ty(ct), rng, c, X.ty(ct), s[1], body, ind, c)) + go()
+    if k == "match":
+        v, tv = _x_lean(s[1], env, X, where)
+        if tv not in ("bv8", "bv16", "nat"):
+            raise Fail("%s: `match` on a %s value" % (where, tv))
+        out, cur = "", ind
+        seen_default = False
+        for n, (pats, body) in enumerate(s[2]):
+            if seen_default:
+                raise Fail("%s: an arm after `_`" % where)
+            if pats == ["_"]:
+                seen_default = True
+                out += _x_emit(body + rest, env, X, where, cur, done)
+                break
+            if "_" in pats:
+                raise Fail("%s: `_` among alternatives" % where)
+            test = " || ".join("%s == %d" % (v, q) for q in pats)
+            out += "%sif (%s) then\n" % (cur, test) + _x_emit(body + rest, env, X, where, cur + "  ", done) + "%selse\n" % cur
+            cur += "  "
+        if not seen_default:
+            raise Fail("%s: `match` on an integer without a `_` arm" % where)
+        return out
+    if k == "expr":
+        e = s[1]
+        if e[0] == "macro":
+            if e[1] in ("unreachable", "panic", "todo", "unimplemented") and X.option:
+                return ind + "none\n"
+            raise Fail("%s: `%s!` in a translated body" % (where, e[1]))
+        if e[0] != "call":
+            raise Fail("%s: an expression statement that is not a call" % where)
+        recv, _, meth = e[1].rpartition(".")
+        if not recv:
+            raise Fail("%s: cannot translate the statement `%s(..)`" % (where, e[1]))
+        if recv == "self":
+            target, tt, store = "s", X.self_ty, None
+        else:
+            target, tt = _x_lean(("var", recv), env, X, where)
+            store = recv
+        if (tt, meth) not in X.mutators:
+            raise Fail("%s: cannot translate the statement `%s(..)` (no translated method `%s` of %s)" % (where, e[1], meth, tt))
+        fn, targs, panics = X.mutators[(tt, meth)]
+        if len(targs) != len(e[2]):
+            raise Fail("%s: `%s` called with %d argument(s)" % (where, e[1], len(e[2])))
+        args = []
+        for a_, want in zip(e[2], targs):
+            a, ta = _x_lean(a_, env, X, where)
+            if ta == "lit" and want in _XTY:
+                a, ta = ("(%s : %s)" % (a, _XTY[want]) if want != "nat" else a), want
+            if ta != want:
+                raise Fail("%s: argument of `%s` has type %s (expected %s)" % (where, e[1], ta, want))
+            args.append(a)
+        call = " ".join([fn, target] + args)
+        if store is None:
+            assign = lambda r: "let s := %s" % r
+        elif recv.startswith("self.") and recv.count(".") == 1:
+            assign = lambda r: "let s := { s with %s := %s }" % (recv[5:], r)
+        elif recv in env and "." not in recv:
+            assign = lambda r: "let %s := %s" % (recv, r)
+        else:
+            raise Fail("%s: a mutating call on `%s`" % (where, recv))
+        if panics:
+            if not X.option:
+                raise Fail("%s: `%s` may panic but the caller is translated as total" % (where, e[1]))
+            return ("%smatch %s with\n%s| none => none\n%s| some r_ =>\n%s  %s\n" % (ind, call, ind, ind, ind, assign("r_"))
+                    + go(env, ind + "  "))
+        return "%s%s\n" % (ind, assign(call)) + go()
+    raise Fail("%s: statement kind %s" % (where, k))
+
+
+def _x_touches_self(s):
+    if s[0] == "set":
+        l = s[1]
+        while l[0] in ("index", "field", "deref"):
+            l = l[1]
+        return l[0] == "var" and l[1].startswith("self")
+    if s[0] == "expr":
+        return True
+    if s[0] in ("if", "iflet"):
+        return any(_x_touches_self(x) for x in s[-2] + s[-1])
+    if s[0] in ("for",):
+        return any(_x_touches_self(x) for x in s[4])
+    if s[0] == "match":
+        return any(_x_touches_self(x) for _, b in s[2] for x in b)
+    return False
+
+
+def _x_params(params, X, where):
+    """(env, signature, [types]) of the parameters after `self`"""
+    env, sig, tys = {}, [], []
+    for part in params.split(","):
+        part = " ".join(part.split())
+        if not part or part in ("self", "&self", "&mut self"):
+            continue
+        m = re.match(r"^(?:mut )?(\w+) ?: ?([\w:]+)$", part)
+        if not m:
+            raise Fail("%s: parameter `%s`" % (where, part))
+        n, ty = m.group(1), m.group(2).split("::")[-1]
+        t = _XRUST.get(ty, ty)
+        if t not in X.leanty:
+            raise Fail("%s: parameter `%s` of type %s" % (where, n, ty))
+        env[n] = (n, t)
+        sig.append("(%s : %s)" % (n, X.leanty[t]))
+        tys.append(t)
+    return env, sig, tys
+
+
+def _x_body(src, rel, name, nth=0):
+    params, ret, body, line = _rust_fn(src, rel, name, nth)
+    where = "%s:%d (fn %s)" % (rel, line, name)
+    if re.search(r"#\s*!?\[", body):
+        raise Fail("%s: an attribute inside the body" % where)
+    return params, ret, _join_paths(body), where, line
+
+
+def _x_method(src, rel, name, lean_name, X, self_ty, base_env, option=False, nth=0, doc_extra=""):
+    """`fn name(&mut self, ..)` of the structure `self_ty` -> Lean definition text; registers it as a mutator"""
+    params, ret, body, where, line = _x_body(src, rel, name, nth)
+    if not re.match(r"^\s*&\s*mut\s+self\b", params):
+        raise Fail("%s: not a `&mut self` method any more" % where)
+    if ret:
+        raise Fail("%s: returns `%s`" % (where, ret))
+    try:
+        X.self_ty, X.option, X.alias = self_ty, option, {}
+        env = dict(base_env)
+        for f, t in X.structs[self_ty].items():
+            env["self." + f] = ("s." + f, t)
+        penv, sig, tys = _x_params(params, X, where)
+        env.update(penv)
+        p = _PX(_tokens(body, where), where)
+        stmts = _x_block(p)
+        if p.peek()[0] is not None:
+            raise Fail("%s: unbalanced `}`" % where)
+
+        def done(env_, tail=None):
+            if tail is not None:
+                raise Fail("%s: the method ends in a value" % where)
+            return "some s" if option else "s"
+        text = _x_emit(stmts, env, X, where, "  ", done)
+    except Fail:
+        raise
+    except Exception as e:
+        raise Fail("%s: could not be parsed (%r)" % (where, e))
+    X.mutators[(self_ty, name)] = (lean_name, tys, option)
+    lt = X.leanty[self_ty]
+    return "/-- `%s` (%s:%d), statement by statement%s -/\ndef %s %s : %s :=\n%s" % (
+        name, rel, line, doc_extra, lean_name, " ".join(["(s : %s)" % lt] + sig), ("Option " + lt) if option else lt, text)
+
+
+def _x_getter(src, rel, name, lean_name, X, self_ty, base_env, ret_ty, extra_sig=(), nth=0, body_override=None, doc=None):
+    """`fn name(&self, ..) -> T` (or a located block) whose body is statements ending in a value"""
+    if body_override is None:
+        params, ret, body, where, line = _x_body(src, rel, name, nth)
+    else:
+        params, body, where, line = body_override
+    try:
+        X.self_ty, X.option, X.alias = self_ty, False, {}
+        env = dict(base_env)
+        for f, t in X.structs[self_ty].items():
+            env["self." + f] = ("s." + f, t)
+        penv, sig, tys = _x_params(params, X, where)
+        env.update(penv)
+        p = _PX(_tokens(body, where), where)
+        stmts = _x_block(p)
+        if p.peek()[0] is not None:
+            raise Fail("%s: unbalanced `}`" % where)
+        for st in stmts:
+            if _x_touches_self(st):
+                raise Fail("%s: a statement that changes `self` in a body translated as a value" % where)
+
+        def done(env_, tail=None):
+            if tail is None:
+                raise Fail("%s: a path ends without a value" % where)
+            v, tv = _x_lean(tail, env_, X, where)
+            return _x_coerce(v, tv, ret_ty, where, "the result")
+        text = _x_emit(stmts, env, X, where, "  ", done)
+    except Fail:
+        raise
+    except Exception as e:
+        raise Fail("%s: could not be parsed (%r)" % (where, e))
+    return "/-- %s -/\ndef %s %s : %s :=\n%s" % (
+        doc or "`%s` (%s:%d), statement by statement" % (name, rel, line), lean_name,
+        " ".join(["(s : %s)" % X.leanty[self_ty]] + list(extra_sig) + sig), X.ty(ret_ty), text)
+
+
+def _x_struct(src, rel, name, wanted, X, elem=None):
+    """the wanted fields of `struct name` with their translated types (Skip if the structure or a field is gone)"""
+    m = re.search(r"\bstruct\s+%s\b[^{;]*\{" % name, src)
+    if not m:
+        raise Skip("struct %s not found in %s" % (name, rel))
+    decl = src[m.end():_match(src, m.end() - 1)]
+    out = {}
+    for f in wanted:
+        mm = re.findall(r"(?<![\w.])%s\s*:\s*([^,]+?)\s*(?:,|$)" % f, decl)
+        if len(mm) != 1:
+            raise Skip("field %s of %s not found" % (f, name))
+        ty = _squash(mm[0])
+        am = re.fullmatch(r"\[(\w+);(\w+)\]", ty)
+        om = re.fullmatch(r"Option<(\w+)>", ty)
+        if ty in _XRUST:
+            out[f] = _XRUST[ty]
+        elif am and am.group(1) == "u8":
+            out[f] = "arr8"
+        elif am and elem and am.group(1) in elem:
+            out[f] = ("arr", elem[am.group(1)])
+        elif om and elem and om.group(1) in elem:
+            out[f] = ("opt", elem[om.group(1)])
+        elif elem and ty in elem:
+            out[f] = elem[ty]
+        else:
+            raise Fail("%s: field %s of %s has type %s" % (rel, f, name, ty))
+    return out
+
+
+def _x_struct_lean(X, ty, doc):
+    t = ["/-- %s -/" % doc, "structure %s where" % X.leanty[ty]]
+    for f, ft in X.structs[ty].items():
+        if isinstance(ft, tuple) and ft[0] == "arr":
+            t.append("  %s : Nat → %s" % (f, X.leanty[ft[1]]))
+        else:
+            t.append("  %s : %s" % (f, X.ty(ft)))
+    return t
+
+
+def _x_enum(src, rel, name, expected, signed=False):
+    """`enum name { A = 1, .. }` -> [(variant, value mod 256)]; Skip if the variants are not the expected ones"""
+    m = re.search(r"\benum\s+%s\s*\{([^}]*)\}" % name, src)
+    if not m:
+        raise Skip("enum %s not found in %s" % (name, rel))
+    out = []
+    for item in m.group(1).split(","):
+        item = re.sub(r"#\s*\[[^\]]*\]", "", item).strip()
+        if not item:
+            continue
+        mm = re.fullmatch(r"(\w+)\s*=\s*(-?\s*(?:0[xX][0-9A-Fa-f_]+|\d[\d_]*))", item)
+        if not mm:
+            raise Fail("%s: variant `%s` of enum %s has no integer discriminant" % (rel, item, name))
+        v = int(mm.group(2).replace(" ", "").replace("_", ""), 0)
+        if not (-128 <= v <= 255) or (v < 0 and not signed):
+            raise Fail("%s: discriminant %d of %s::%s" % (rel, v, name, mm.group(1)))
+        out.append((mm.group(1), v % 256))
+    if sorted(v for v, _ in out) != sorted(expected):
+        raise Skip("enum %s has variants %s" % (name, [v for v, _ in out]))
+    return out
+
+
+def _lower1(s):
+    return s[0].lower() + s[1:]
+
+
+_IH_HEAD = """/- GENERATED by tools/extract.py (InputHandlers) from rustzx-core/src/zx/controller.rs (`send_key`,
+`send_sinclair_key`, `send_compound_key`, `send_mouse_*`, the ULA branch of `read_io`, the input fields of
+`ZXController::new`), zx/joy/kempston.rs, zx/mouse/kempston.rs, zx/keys.rs (`modifier_key`), zx/joy/sinclair.rs
+(argument order) and emulator/mod.rs (the `send_*` entry points), translated statement by statement
+(u8 / i8 -> BitVec 8, u16 / i16 -> BitVec 16, u32 -> BitVec 32, usize -> Nat, `[u8; 8]` -> Nat → BitVec 8,
+fully parenthesised). The key tables the handlers call are the extracted ones (Keys, Sinclair). Do not edit. -/
+import ZxVerif.Extracted.Keys
+import ZxVerif.Extracted.Sinclair
+set_option linter.unusedVariables false
+set_option linter.constructorNameAsVariable false
+namespace ZxVerif.Extracted.InputHandlers
+open ZxVerif.Input
+
+/-- `arr[i] = v` on a `[u8; 8]` held as a function -/
+def set8 (a : Nat → BitVec 8) (i : Nat) (v : BitVec 8) : Nat → BitVec 8 := fun j => if j = i then v else a j
+"""
+
+
+def _ih_forward(src, rel, name, X, self_ty, lean_name, target_fn, target_ty_args):
+    """`fn name(&mut self, a, b) { self.controller.name2(a, b); }`: the arguments in call order"""
+    params, ret, body, where, line = _x_body(src, rel, name)
+    penv, sig, tys = _x_params(params, X, where)
+    nb = _norm(body)
+    m = re.fullmatch(r"self\.controller\.(\w+)\(([\w, ]*)\);?", nb)
+    if not m:
+        raise Fail("%s: the body is not a single call `self.controller.<fn>(..)`" % where)
+    args = [a.strip() for a in m.group(2).split(",") if a.strip()]
+    if m.group(1) != target_fn:
+        raise Fail("%s: forwards to `%s` (expected `%s`)" % (where, m.group(1), target_fn))
+    for a, want in zip(args, target_ty_args):
+        if a not in penv or penv[a][1] != want:
+            raise Fail("%s: argument `%s` of the forwarded call" % (where, a))
+    if len(args) != len(target_ty_args):
+        raise Fail("%s: %d argument(s) forwarded" % (where, len(args)))
+    return "/-- `Emulator::%s` (%s:%d): forwards to `ZXController::%s` -/\ndef %s %s : Ctl :=\n  %s\n" % (
+        name, rel, line, target_fn, lean_name, " ".join(["(s : Ctl)"] + sig), " ".join([X.mutators[(self_ty, target_fn)][0], "s"] + args))
+
+
+def input_handlers(repo):
+    def src_of(rel):
+        try:
+            return blank_comments(read(repo, rel))
+        except OSError:
+            raise Skip("%s not found" % rel)
+    ks, js, ms, es = src_of(CONTROLLER), src_of(KEMPSTON_JOY_RS), src_of(KEMPSTON_MOUSE_RS), src_of(EMULATOR_RS)
+    keys_src, sinc = src_of(KEYS_RS), src_of(SINCLAIR_RS)
+    X = _XCtx()
+    for rust, lean in (("ZXKey", "ZXKey"), ("CompoundKey", "CompoundKey"), ("SinclairKey", "SinclairKey"),
+                       ("SinclairJoyNum", "JoyNum"), ("KempstonKey", "KempstonKey"), ("KempstonMouseButton", "MouseButton"),
+                       ("KempstonMouseWheelDirection", "WheelDir"), ("Joy", "Joy"), ("Mouse", "Mouse"), ("Ctl", "Ctl")):
+        X.leanty[rust] = lean
+    t = [_IH_HEAD]
+    # ---- keys.rs: modifier_key; sinclair.rs: the argument order of sinclair_event_to_zx_key ----
+    _, ret, body, line = _rust_fn(keys_src, KEYS_RS, "modifier_key")
+    where = "%s:%d (fn modifier_key)" % (KEYS_RS, line)
+    nb = _norm(body)
+    t.append("/-- `CompoundKey::modifier_key` (%s:%d) -/" % (KEYS_RS, line))
+    t.append("def compoundModifier : CompoundKey → ZXKey")
+    m = re.fullmatch(r"ZXKey::(\w+)", nb)
+    comp = {"ArrowLeft": "arrowLeft", "ArrowRight": "arrowRight", "ArrowUp": "arrowUp", "ArrowDown": "arrowDown",
+            "CapsLock": "capsLock", "Delete": "delete", "Break": "break_"}
+    if m:
+        if m.group(1) not in LEAN_KEY:
+            raise Fail("%s: unknown key %s" % (where, m.group(1)))
+        t.append("  | _ => .%s" % LEAN_KEY[m.group(1)])
+    else:
+        m = re.fullmatch(r"match self\{(.*)\}", nb)
+        if not m:
+            raise Fail("%s: the body is neither `ZXKey::K` nor `match self { .. }`" % where)
+        arms, pos, txt = [], 0, m.group(1)
+        rx = re.compile(r"((?:CompoundKey::\w+ ?\| ?)*CompoundKey::\w+|_) ?=> ?ZXKey::(\w+),?")
+        while pos < len(txt):
+            a = rx.match(txt, pos)
+            if not a or a.group(2) not in LEAN_KEY:
+                raise Fail("%s: cannot classify the arm `%s`" % (where, txt[pos:pos + 40]))
+            for c in re.findall(r"CompoundKey::(\w+)", a.group(1)) or ["_"]:
+                if c != "_" and c not in comp:
+                    raise Fail("%s: unknown compound key %s" % (where, c))
+                t.append("  | %s => .%s" % ("." + comp[c] if c != "_" else "_", LEAN_KEY[a.group(2)]))
+            pos = a.end()
+    params, _, _, line = _rust_fn(sinc, SINCLAIR_RS, "sinclair_event_to_zx_key")
+    order = [p.split(":")[1].strip() for p in params.split(",") if p.strip()]
+    names = [p.split(":")[0].strip() for p in params.split(",") if p.strip()]
+    if sorted(order) != ["SinclairJoyNum", "SinclairKey"]:
+        raise Fail("%s:%d: parameters `%s` of sinclair_event_to_zx_key" % (SINCLAIR_RS, line, " ".join(params.split())))
+    t.append("")
+    t.append("/-- `sinclair_event_to_zx_key(%s)` (%s:%d): the extracted map with the arguments in call order -/" % (", ".join(names), SINCLAIR_RS, line))
+    if order[0] == "SinclairKey":
+        t.append("def sinclairEventToZxKey (key : SinclairKey) (num : JoyNum) : ZXKey := sinclairMap num key")
+    else:
+        t.append("def sinclairEventToZxKey (num : JoyNum) (key : SinclairKey) : ZXKey := sinclairMap num key")
+    t.append("")
+    base = {"sinclair::sinclair_event_to_zx_key(2)": ("(sinclairEventToZxKey %s %s)", tuple(order), "ZXKey"),
+            "sinclair_event_to_zx_key(2)": ("(sinclairEventToZxKey %s %s)", tuple(order), "ZXKey")}
+    for k in KEYS:
+        base["ZXKey::" + k] = ("ZXKey." + LEAN_KEY[k], "ZXKey")
+    X.methods[("ZXKey", "row_id")] = ("(keyRow %s)", (), "nat")
+    X.methods[("ZXKey", "mask")] = ("(keyMask %s)", (), "bv8")
+    X.methods[("CompoundKey", "primary_key")] = ("(compoundPrimary %s)", (), "ZXKey")
+    X.methods[("CompoundKey", "modifier_key")] = ("(compoundModifier %s)", (), "ZXKey")
+    X.methods[("CompoundKey", "modifier_mask")] = ("(compoundMask %s)", (), "bv32")
+    # ---- joy/kempston.rs ----
+    kk = _x_enum(js, KEMPSTON_JOY_RS, "KempstonKey", ["Right", "Left", "Down", "Up", "Fire", "Ext1", "Ext2", "Ext3"])
+    t.append("/-! ### zx/joy/kempston.rs -/")
+    t.append("/-- `KempstonKey as u8` -/")
+    t.append("def kempstonBit : KempstonKey → BitVec 8")
+    t += ["  | .%s => 0x%02X" % (_lower1(n), v) for n, v in kk]
+    X.enum_cast[("KempstonKey", "bv8")] = "kempstonBit"
+    X.structs["Joy"] = _x_struct(js, KEMPSTON_JOY_RS, "KempstonJoy", ["state"], X)
+    t += _x_struct_lean(X, "Joy", "`struct KempstonJoy`")
+    if not re.search(r"#\s*\[\s*derive\s*\([^)]*\bDefault\b[^)]*\)\s*\]\s*pub(?:\s*\(\s*crate\s*\))?\s+struct\s+KempstonJoy\b", js):
+        raise Fail("%s: KempstonJoy no longer derives Default" % KEMPSTON_JOY_RS)
+    t.append("/-- `KempstonJoy::default()` (derived) -/")
+    t.append("def joyDefault : Joy := { state := 0 }")
+    t.append(_x_method(js, KEMPSTON_JOY_RS, "key", "Joy.key", X, "Joy", base))
+    t.append(_x_getter(js, KEMPSTON_JOY_RS, "read", "Joy.read", X, "Joy", base, "bv8"))
+    # ---- mouse/kempston.rs ----
+    t.append("/-! ### zx/mouse/kempston.rs -/")
+    cenv, clines = _const_table(ms, KEMPSTON_MOUSE_RS, ["WHEEL_MASK", "WHEEL_SHIFT"])
+    t += clines
+    for n, (v, ty) in cenv.items():
+        base[n] = (v, ty)
+    mb = _x_enum(ms, KEMPSTON_MOUSE_RS, "KempstonMouseButton", ["Left", "Right", "Middle", "Additional"])
+    t.append("/-- `KempstonMouseButton as u8` -/")
+    t.append("def mouseButtonBit : MouseButton → BitVec 8")
+    t += ["  | .%s => 0x%02X" % (_lower1(n), v) for n, v in mb]
+    X.enum_cast[("KempstonMouseButton", "bv8")] = "mouseButtonBit"
+    wd = _x_enum(ms, KEMPSTON_MOUSE_RS, "KempstonMouseWheelDirection", ["Up", "Down"], signed=True)
+    t.append("/-- `enum KempstonMouseWheelDirection` -/")
+    t.append("inductive WheelDir | %s" % " | ".join(n for n, _ in wd))
+    t.append("  deriving DecidableEq, Repr")
+    t.append("/-- `KempstonMouseWheelDirection as i8` (two's complement) -/")
+    t.append("def wheelDirVal : WheelDir → BitVec 8")
+    t += ["  | .%s => 0x%02X" % (n, v) for n, v in wd]
+    X.enum_cast[("KempstonMouseWheelDirection", "i8")] = "wheelDirVal"
+    X.structs["Mouse"] = _x_struct(ms, KEMPSTON_MOUSE_RS, "KempstonMouse", ["buttons_port", "x_pos_port", "y_pos_port"], X)
+    t += _x_struct_lean(X, "Mouse", "`struct KempstonMouse`")
+    m = re.search(r"impl\s+Default\s+for\s+KempstonMouse\s*\{", ms)
+    if not m:
+        raise Fail("%s: `impl Default for KempstonMouse` not found" % KEMPSTON_MOUSE_RS)
+    blk = ms[m.end():_match(ms, m.end() - 1)]
+    lit = re.search(r"\bSelf\s*\{", blk)
+    if not lit:
+        raise Fail("%s: `Self { .. }` not found in KempstonMouse::default" % KEMPSTON_MOUSE_RS)
+    lb = blk[lit.end():_match(blk, lit.end() - 1)]
+    vals = []
+    for f in X.structs["Mouse"]:
+        v, tv = _tr_expr(_body_field(lb, f, KEMPSTON_MOUSE_RS + " (KempstonMouse::default)"), {}, KEMPSTON_MOUSE_RS)
+        if tv != "lit":
+            raise Fail("%s: KempstonMouse::default: `%s` is not a literal" % (KEMPSTON_MOUSE_RS, f))
+        vals.append("%s := %s" % (f, v))
+    t.append("/-- `KempstonMouse::default()` -/")
+    t.append("def mouseDefault : Mouse := { %s }" % ", ".join(vals))
+    t.append(_x_method(ms, KEMPSTON_MOUSE_RS, "send_button", "Mouse.sendButton", X, "Mouse", base))
+    t.append(_x_method(ms, KEMPSTON_MOUSE_RS, "send_wheel", "Mouse.sendWheel", X, "Mouse", base))
+    t.append(_x_method(ms, KEMPSTON_MOUSE_RS, "send_pos_diff", "Mouse.sendPosDiff", X, "Mouse", base))
+    # ---- controller.rs ----
+    t.append("/-! ### zx/controller.rs -/")
+    X.structs["Ctl"] = _x_struct(ks, CONTROLLER, "ZXController",
+                                 ["keyboard", "keyboard_extended", "keyboard_sinclair", "caps_shift_modifier_mask", "kempston", "mouse"],
+                                 X, elem={"KempstonJoy": "Joy", "KempstonMouse": "Mouse"})
+    t += _x_struct_lean(X, "Ctl", "the input fields of `ZXController`")
+    _, field, where = _controller_new(ks)
+    _, _, nbody, _ = _rust_fn(ks, CONTROLLER, "new")
+    vals = []
+    for f, ft in X.structs["Ctl"].items():
+        txt = field(f)
+        if ft == "arr8":
+            m = re.fullmatch(r"\[\s*([0-9A-Fa-fxX_]+)\s*;\s*8\s*\]", txt)
+            if not m:
+                raise Fail("%s: `%s` initialised with `%s`" % (where, f, txt))
+            vals.append("%s := fun _ => 0x%02X" % (f, num(m.group(1))))
+        elif isinstance(ft, tuple):
+            dev = {"Joy": "KempstonJoy", "Mouse": "KempstonMouse"}[ft[1]]
+            m = re.search(r"\blet\s+%s\s*=\s*if\s+settings\s*\.\s*(\w+)\s*\{\s*Some\s*\(\s*%s::default\s*\(\s*\)\s*\)\s*\}\s*else\s*\{\s*None\s*\}\s*;" % (re.escape(txt), dev), nbody)
+            if not m or not re.fullmatch(r"\w+", txt):
+                raise Fail("%s: `%s` is not `if settings.<flag> { Some(%s::default()) } else { None }`" % (where, f, dev))
+            vals.append("%s := if %s then some %sDefault else none" % (f, m.group(1), ft[1].lower()))
+        else:
+            v, tv = _tr_expr(txt, {}, where)
+            if tv != "lit":
+                raise Fail("%s: `%s` initialised with `%s`" % (where, f, txt))
+            vals.append("%s := %s" % (f, v))
+    flags = re.findall(r"if (\w+) then some", " ".join(vals))
+    t.append("/-- `ZXController::new`: the input fields -/")
+    t.append("def newCtl %s : Ctl :=\n  { %s }" % (" ".join("(%s : Bool)" % f for f in flags), ",\n    ".join(vals)))
+    t.append(_x_method(ks, CONTROLLER, "send_key", "sendKey", X, "Ctl", base))
+    t.append(_x_method(ks, CONTROLLER, "send_sinclair_key", "sendSinclairKey", X, "Ctl", base))
+    t.append(_x_method(ks, CONTROLLER, "send_compound_key", "sendCompoundKey", X, "Ctl", base))
+    t.append(_x_method(ks, CONTROLLER, "send_mouse_button", "sendMouseButton", X, "Ctl", base))
+    t.append(_x_method(ks, CONTROLLER, "send_mouse_wheel", "sendMouseWheel", X, "Ctl", base))
+    t.append(_x_method(ks, CONTROLLER, "send_mouse_pos_diff", "sendMousePosDiff", X, "Ctl", base))
+    # ---- the ULA branch of read_io ----
+    lo, hi = _fn_span(ks, "read_io")
+
+    def kwhere(pos):
+        return "%s:%d" % (CONTROLLER, ks.count("\n", 0, pos) + 1)
+    chain_at = None
+    depth, k = 0, lo
+    while k < hi:
+        c = ks[k]
+        if c in "([{":
+            depth += 1
+        elif c in ")]}":
+            depth -= 1
+        elif depth == 0 and _word_at(ks, k, "if"):
+            chain_at = k
+            break
+        k += 1
+    if chain_at is None:
+        raise Skip("no if / else-if chain at the top level of read_io")
+    branches, els, _ = _parse_chain(ks, chain_at, hi, kwhere)
+    ula = [(c, cp, b, bp) for c, cp, b, bp in branches if "self.keyboard[" in _squash(b)]
+    if len(ula) != 1:
+        raise Fail("%s: %d branch(es) of read_io read `self.keyboard[..]`" % (kwhere(chain_at), len(ula)))
+    _, _, ubody, upos = ula[0]
+    pre = re.findall(r"\blet\s*\[[^\]]*\]\s*=\s*port\s*\.\s*to_le_bytes\s*\(\s*\)\s*;", ks[lo:chain_at])
+    if len(pre) > 1:
+        raise Fail("%s: `port.to_le_bytes()` is taken apart twice in read_io" % kwhere(lo))
+    where = "%s (the ULA branch of read_io)" % kwhere(upos)
+    renv = dict(base)
+    renv["self.tape.current_bit(0)"] = ("ear", (), "bool")
+    t.append(_x_getter(ks, CONTROLLER, "read_io", "readUla", X, "Ctl", renv, "bv8", extra_sig=["(ear : Bool)"],
+                       body_override=("port: u16", (pre[0] if pre else "") + _join_paths(ubody), where, 0),
+                       doc="the branch of `read_io` that reads `self.keyboard[..]` (%s), statement by statement, after the "
+                           "`let [..] = port.to_le_bytes();` that precedes the chain; `ear` = `self.tape.current_bit()`" % kwhere(upos)))
+    # ---- emulator/mod.rs ----
+    t.append("/-! ### emulator/mod.rs -/")
+    params, ret, body, where, line = _x_body(es, EMULATOR_RS, "send_kempston_key")
+    nb = _norm(body)
+    m = re.fullmatch(r"if let Some\((\w+)\)=&mut self\.controller\.kempston\{(.*)\}", nb)
+    if not m:
+        raise Fail("%s: the body is not `if let Some(joy) = &mut self.controller.kempston { .. }`" % where)
+    t.append(_x_method(es.replace("self.controller.kempston", "self.kempston"), EMULATOR_RS, "send_kempston_key", "sendKempstonKey",
+                       X, "Ctl", base, doc_extra=" (`self.controller.kempston` read as the field of the controller)"))
+    X.mutators.pop(("Ctl", "send_kempston_key"), None)
+    for rname, lname in (("send_key", "emuSendKey"), ("send_compound_key", "emuSendCompoundKey"),
+                         ("send_sinclair_key", "emuSendSinclairKey"), ("send_mouse_button", "emuSendMouseButton"),
+                         ("send_mouse_wheel", "emuSendMouseWheel"), ("send_mouse_pos_diff", "emuSendMousePosDiff")):
+        t.append(_ih_forward(es, EMULATOR_RS, rname, X, "Ctl", lname, rname, X.mutators[("Ctl", rname)][1]))
+    t += ["end ZxVerif.Extracted.InputHandlers"]
+    return "\n".join(t) + "\n"
+
+
+_AY_HEAD = """/- GENERATED by tools/extract.py (AyDispatch) from aym/src/backends/precise.rs (`write_register` and the setters
+it calls: `set_tone`, `set_noise`, `set_mixer`, `set_volume`, `set_envelope`, `set_envelope_shape`,
+`reset_segment`), aym/src/lib.rs (`AY_REGISTER_COUNT`), rustzx-core/src/zx/sound/ay.rs (`ZXAyChip::select_reg`,
+`write`, `read`) and rustzx-core/src/zx/controller.rs (`select_ay_reg`, `write_ay_port`, `read_ay_port`),
+translated statement by statement (u8 -> BitVec 8, u16 -> BitVec 16, usize -> Nat, arrays -> functions of the
+index, `match` on the register number -> if / else-if chain in source order, `unreachable!()` -> `none`;
+fully parenthesised). `ENVELOPE_RESET_TO_MAX` is the extracted table (AyTables). Do not edit. -/
+import ZxVerif.Extracted.AyTables
+set_option linter.unusedVariables false
+namespace ZxVerif.Extracted.AyDispatch
+
+/-- `arr[i] = v` on a `[u8; N]` held as a function -/
+def set8 (a : Nat → BitVec 8) (i : Nat) (v : BitVec 8) : Nat → BitVec 8 := fun j => if j = i then v else a j
+/-- `arr[i] = v` on an array of structures held as a function -/
+def setAt {α : Type} (a : Nat → α) (i : Nat) (v : α) : Nat → α := fun j => if j = i then v else a j
+/-- `ENVELOPE_RESET_TO_MAX[shape][segment]` (segment 0 / 1) from the extracted table -/
+def resetToMaxAt (shape segment : Nat) : Bool :=
+  let p := ZxVerif.Ay.Extracted.resetToMax.getD shape (false, false)
+  if segment = 0 then p.1 else p.2
+"""
+
+
+def ay_dispatch(repo):
+    def src_of(rel):
+        try:
+            return blank_comments(read(repo, rel))
+        except OSError:
+            raise Skip("%s not found" % rel)
+    ps, lib, zs, ks = src_of(AYM_PRECISE_RS), src_of(AYM_LIB_RS), src_of(ZXAY_RS), src_of(CONTROLLER)
+    X = _XCtx()
+    X.leanty.update({"Chan": "Chan", "Gen": "Gen", "Chip": "Chip"})
+    t = [_AY_HEAD]
+    cenv, clines = _const_table(lib, AYM_LIB_RS, ["AY_REGISTER_COUNT"])
+    t.append("/-! ### aym/src/lib.rs, aym/src/backends/precise.rs -/")
+    t += [l for l in clines if l.startswith("def AY_REGISTER_COUNT ")]
+    base = {"AY_REGISTER_COUNT": cenv["AY_REGISTER_COUNT"], "ENVELOPE_RESET_TO_MAX[][]": ("resetToMaxAt", "fn")}
+    X.structs["Chan"] = _x_struct(ps, AYM_PRECISE_RS, "ToneChannel",
+                                  ["tone_period", "tone_off_bit", "noise_off_bit", "envelope_enabled", "volume"], X)
+    t += _x_struct_lean(X, "Chan", "the fields of `struct ToneChannel` the register writes reach")
+    X.structs["Gen"] = _x_struct(ps, AYM_PRECISE_RS, "AymPrecise",
+                                 ["channels", "noise_period", "envelope_counter", "envelope_period", "envelope_shape",
+                                  "envelope_segment", "envelope", "registers"], X, elem={"ToneChannel": "Chan"})
+    t += _x_struct_lean(X, "Gen", "the fields of `struct AymPrecise` the register writes reach (an assignment to any other "
+                                  "field inside the translated functions is a translation failure)")
+    for rname, lname in (("set_tone", "setTone"), ("set_noise", "setNoise"), ("set_mixer", "setMixer"), ("set_volume", "setVolume"),
+                         ("set_envelope", "setEnvelope"), ("reset_segment", "resetSegment"), ("set_envelope_shape", "setEnvelopeShape")):
+        t.append(_x_method(ps, AYM_PRECISE_RS, rname, lname, X, "Gen", base))
+    t.append(_x_method(ps, AYM_PRECISE_RS, "write_register", "writeRegister", X, "Gen", base, option=True,
+                       doc_extra="; `none` = `unreachable!()`"))
+    # ---- ZXAyChip ----
+    t.append("/-! ### rustzx-core/src/zx/sound/ay.rs -/")
+    X.structs["Chip"] = _x_struct(zs, ZXAY_RS, "ZXAyChip", ["ay", "current_reg", "regs"], X, elem={"AymPrecise": "Gen"})
+    t += _x_struct_lean(X, "Chip", "`struct ZXAyChip`")
+    t.append(_x_method(zs, ZXAY_RS, "select_reg", "Chip.selectReg", X, "Chip", {}))
+    t.append(_x_method(zs, ZXAY_RS, "write", "Chip.write", X, "Chip", {}, option=True,
+                       doc_extra="; `none` = a panic inside `write_register`"))
+    t.append(_x_getter(zs, ZXAY_RS, "read", "Chip.read", X, "Chip", {}, "bv8"))
+    # ---- the controller's AY port functions (the variants compiled with the `sound` and `ay` features) ----
+    t.append("/-! ### rustzx-core/src/zx/controller.rs -/")
+    for rname, lname, meth, nargs in (("select_ay_reg", "ctlSelectAyReg", "select_reg", 1), ("write_ay_port", "ctlWriteAyPort", "write", 1),
+                                      ("read_ay_port", "ctlReadAyPort", "read", 0)):
+        hit = None
+        for nth in range(len(re.findall(r"\bfn\s+%s\s*\(" % rname, ks))):
+            params, ret, body, line = _rust_fn(ks, CONTROLLER, rname, nth)
+            if "self.mixer.ay" in _squash(_join_paths(body)):
+                if hit is not None:
+                    raise Fail("%s: two definitions of %s reach `self.mixer.ay`" % (CONTROLLER, rname))
+                hit = (params, body, line)
+        if hit is None:
+            raise Skip("no definition of %s reaches `self.mixer.ay`" % rname)
+        params, body, line = hit
+        where = "%s:%d (fn %s)" % (CONTROLLER, line, rname)
+        m = re.fullmatch(r"self\.mixer\.ay\.(\w+)\((\w*)\);?", _norm(_join_paths(body)))
+        if not m:
+            raise Fail("%s: the body is not a single call `self.mixer.ay.<fn>(..)`" % where)
+        penv, sig, tys = _x_params(params, X, where)
+        if m.group(1) != meth:
+            raise Fail("%s: calls `ZXAyChip::%s` (expected `%s`)" % (where, m.group(1), meth))
+        args = [m.group(2)] if m.group(2) else []
+        if len(args) != nargs or any(a not in penv or penv[a][1] != "bv8" for a in args):
+            raise Fail("%s: arguments `%s` of the forwarded call" % (where, m.group(2)))
+        t.append("/-- `ZXController::%s` (%s:%d): forwards to `ZXAyChip::%s` -/" % (rname, CONTROLLER, line, meth))
+        if meth == "read":
+            t.append("def %s (c : Chip) : BitVec 8 := Chip.read c" % lname)
+        elif meth == "write":
+            t.append("def %s %s : Option Chip := Chip.write c %s" % (lname, " ".join(["(c : Chip)"] + sig), " ".join(args)))
+        else:
+            t.append("def %s %s : Chip := Chip.selectReg c %s" % (lname, " ".join(["(c : Chip)"] + sig), " ".join(args)))
+    t += ["", "end ZxVerif.Extracted.AyDispatch"]
+    return "\n".join(t) + "\n"
+# <<< input handlers / AY dispatch
+
+
 TABLES = [("Machine", machine), ("Contended", contention_fn), ("Keys", keys), ("Sinclair", sinclair),
           ("Z80Tables", z80_tables), ("TapeConsts", tape_consts), ("AyTables", ay_tables), ("Ports", ports),
           ("SnaLayout", sna_layout), ("SzxLayout", szx_layout),
           ("VideoConsts", video_consts), ("MixerConsts", mixer_consts),
           ("Paging", paging), ("FrameClock", frame_clock),
           ("VtxLayout", vtx_layout), ("FastLoad", fast_load),
-          ("TapeMachine", tape_machine)]
+          ("TapeMachine", tape_machine),
+          ("InputHandlers", input_handlers), ("AyDispatch", ay_dispatch)]
 
 
 def main():
